@@ -218,10 +218,47 @@ def enum_unmerges(seed):
                         probs.append(f"protected base directory {k} was removed")
             if probs and len(fails) < 4:
                 fails.append({"model": model, "detail": f"removing {model['old']} (new package: {model['new']}, foreign files {foreign}): " + "; ".join(probs[:4])})
+        # protected base paths recorded as symlinks (merged-usr / multilib roots: /lib -> lib64, /bin -> usr/bin) or as directories
+        from pkgcore.fs import fs as F
+        for kind in ("dir", "sym"):
+            for prot, target in (("lib", "lib64"), ("bin", "usr/bin"), ("usr/lib", "lib64"), ("sbin", "usr/sbin")):
+                cases += 1
+                root = os.path.join(scratch, f"p-{kind}-{prot.replace('/', '_')}")
+                real = os.path.normpath(os.path.join(root, os.path.dirname(prot), target))
+                os.makedirs(real)
+                os.makedirs(os.path.dirname(os.path.join(root, prot)), exist_ok=True)
+                open(os.path.join(real, "payload"), "w").write("x")
+                if kind == "sym":
+                    os.symlink(target, os.path.join(root, prot))
+                    ent = F.fsSymlink(os.path.join(root, prot), target, strict=False)
+                    payload = os.path.join(real, "payload")
+                else:
+                    os.rmdir(real) if not os.listdir(real) else None
+                    os.makedirs(os.path.join(root, prot), exist_ok=True)
+                    open(os.path.join(root, prot, "payload"), "w").write("x")
+                    ent = F.fsDir(os.path.join(root, prot), strict=False)
+                    payload = os.path.join(root, prot, "payload")
+                remove = contents.contentsSet([ent, F.fsFile(payload, strict=False)])
+                eng = type("E", (), {"offset": root})()
+                model = {"protected_path": "/" + prot, "recorded_as": kind, "target": target if kind == "sym" else None}
+                try:
+                    triggers.BaseSystemUnmergeProtection().trigger(eng, remove)
+                    ops.unmerge_contents(remove)
+                except Exception as e:
+                    if len(fails) < 4:
+                        fails.append({"model": model, "detail": f"protected /{prot} recorded as {kind}: raised {type(e).__name__}: {e}"})
+                    continue
+                probs = []
+                if not os.path.lexists(os.path.join(root, prot)):
+                    probs.append(f"the protected base path /{prot} ({'a symlink to ' + target if kind == 'sym' else 'a directory'} on the live root) was removed")
+                if os.path.lexists(payload):
+                    probs.append(f"the package's own file {os.path.relpath(payload, root)} was left behind")
+                if probs and len(fails) < 4:
+                    fails.append({"model": model, "detail": "; ".join(probs)})
     finally:
         shutil.rmtree(scratch, ignore_errors=True)
     return {"name": "C20.unmerges.bounded_enumeration", "bound": "40 seeded scratch roots: an old package of 3..6 of 9 entries (files, hardlinks, symlinks, fifos, nested directories under usr / etc / opt) merged, "
-            "optionally a replacing package of 4 entries merged over it, foreign files dropped into shared directories, then get_remove_cset + BaseSystemUnmergeProtection + unmerge_contents; snapshots compared", "cases": cases, "failures": fails}
+            "optionally a replacing package of 4 entries merged over it, foreign files dropped into shared directories, then get_remove_cset + BaseSystemUnmergeProtection + unmerge_contents; snapshots compared; 8 roots whose protected base path (/lib, /bin, /usr/lib, /sbin) is recorded as a directory or as a symlink", "cases": cases, "failures": fails}
 
 
 def tasks():
